@@ -29,6 +29,7 @@ import (
 	"github.com/ajitpratap0/GoSQLX/pkg/sql/tokenizer"
 
 	"verif/internal/core"
+	"verif/internal/gram"
 	"verif/internal/ops"
 	"verif/internal/project"
 )
@@ -238,6 +239,11 @@ func main() {
 	stmts := append([]string{}, statements...)
 	stmts = append(stmts, exprStatements()...)
 	stmts = append(stmts, longInput(110))
+	// a sample of Select.tla's statement forms (every named form, sampled clause combinations, ORDER BY lists,
+	// tails and window specifications)
+	model := gram.FormTexts(run)
+	run.Extra["model_statements_in_catalogue"] = len(model)
+	stmts = append(stmts, model...)
 	if tier == "thorough" {
 		stmts = append(stmts, longInput(320))
 		// every statement also nested inside each wrapping construct
